@@ -1,7 +1,7 @@
 // Whole-run determinism driver (C07, labelled TESTING, not proof).
 //
 // usage: h_rng_run <kind> <seed> key=value...
-//   kind: ga | de | sr_std | sr_alps | sr_mse | class_std
+//   kind: ga | de | sr_std | sr_alps | sr_mse | class_std | pickup (population.tcc:pickup on given layer sizes: 'd' draws carry the weights)
 //         inproc_mep_fixed | inproc_mep_distinct | inproc_mep_random | inproc_ga | inproc_de | inproc_sr
 //   keys: gen pop layers pcross pmut tour brood code runs
 //         sleepgen=<g> sleepms=<ms>   hold the process up for <ms> inside the after_generation callback of generation <g>
@@ -18,10 +18,87 @@
 //   F ...                              final summary
 // No wall-clock field, no address is printed.  The check runs the program twice
 // in separately perturbed processes and compares the transcripts byte by byte.
-#include <chrono>
+#include <algorithm>
+#include <cstdint>
 #include <cstring>
+#include <iostream>
+#include <limits>
 #include <map>
+#include <memory>
+#include <sstream>
+#include <string>
+#include <vector>
+#include <set>
+#include <functional>
+#include <fstream>
+#include <filesystem>
+#include <variant>
+#include <any>
+#include <random>
+#include <chrono>
 #include <thread>
+#include <shared_mutex>
+#include <mutex>
+#include <iomanip>
+#include <numeric>
+#include <cmath>
+#include <list>
+#include <queue>
+#include <stack>
+#include <array>
+#include <atomic>
+#include <future>
+#include <optional>
+#include <regex>
+#include <type_traits>
+#include <utility>
+#include <cassert>
+#include <climits>
+#include <cstdlib>
+#include <iterator>
+#include <locale>
+#include <stdexcept>
+#include <unordered_map>
+#include <unordered_set>
+#include <bitset>
+#include <charconv>
+#include <string_view>
+#include <typeinfo>
+#include <typeindex>
+#include <tuple>
+#include <initializer_list>
+#include <exception>
+#include <new>
+#include <condition_variable>
+#include <csignal>
+#include <cstdio>
+#include <ctime>
+#include <cctype>
+#include <cfloat>
+#include <cinttypes>
+#include <cstddef>
+#include <deque>
+#include <forward_list>
+#include <ios>
+#include <iosfwd>
+#include <istream>
+#include <ostream>
+#include <ratio>
+#include <scoped_allocator>
+#include <streambuf>
+#include <system_error>
+#include <valarray>
+#include <complex>
+#include <codecvt>
+#include <fcntl.h>
+#include <unistd.h>
+
+// evolution::pop_ is read by the draw sink (layer sizes at the moment of a discrete_distribution draw)
+#define private public
+#define protected public
+#include "kernel/vita.h"
+#undef private
+#undef protected
 
 #include "common.h"
 #include "kernel/gp/src/primitive/factory.h"
@@ -51,6 +128,7 @@ std::string hexld(long double v)
   return s;
 }
 
+std::function<std::string()> layer_sizes;  // set by the kinds that own their evolution object
 bool draw_plain(false);  // drawfmt=1: draws as  D i:<lo>:<hi>:<v> (decimal) | D r:<bits>:<bits>:<bits> | D b:<bits p>:<0|1> | D d:<n>:<v>
 std::string dec(long double v)
 {
@@ -68,7 +146,11 @@ void sink(char k, long double lo, long double hi, long double v)
     else if (k == 'r') tr_ += ":" + vv::hex64(vv::bits_of(static_cast<double>(lo))) + ":" + vv::hex64(vv::bits_of(static_cast<double>(hi)))
                               + ":" + vv::hex64(vv::bits_of(static_cast<double>(v)));
     else if (k == 'b') tr_ += ":" + vv::hex64(vv::bits_of(static_cast<double>(hi))) + ":" + dec(v);
-    else tr_ += ":" + dec(hi) + ":" + dec(v);
+    else
+    {
+      tr_ += ":" + dec(hi) + ":" + dec(v);
+      if (k == 'd' && layer_sizes) tr_ += ":" + layer_sizes();  // the weights population.tcc:pickup gave to discrete_distribution
+    }
     tr_ += "\n";
     return;
   }
@@ -305,6 +387,43 @@ void run_mep(unsigned seed, test_evaluator_type et, const problem &prob)
   dump_final(res);
 }
 
+// population.tcc:pickup(pop) on a population of several layers: the layer is drawn with std::discrete_distribution
+// over the layer sizes, then an individual inside it.  (No shipped strategy combination reaches this branch: only
+// ALPS populations have several layers and ALPS selection does not call pickup(pop); it is exercised directly.)
+//   pickup <seed> calls=<n> s0=<size> s1=<size> ...
+void run_pickup(unsigned seed)
+{
+  ga_problem prob(2, {0, 10});
+  prob.env.init();
+  std::vector<unsigned> sizes;
+  for (unsigned l(0); kv.count("s" + std::to_string(l)); ++l)
+    sizes.push_back(static_cast<unsigned>(opt("s" + std::to_string(l), 1)));
+  prob.env.individuals = sizes.at(0);
+  random::seed(12345);
+  population<i_ga> pop(prob);
+  for (std::size_t l(1); l < sizes.size(); ++l)
+  {
+    pop.pop_.push_back(std::vector<i_ga>(sizes[l], pop.pop_[0][0]));
+    pop.allowed_.push_back(sizes[l]);
+  }
+  layer_sizes = [&pop]
+  {
+    std::string s;
+    for (unsigned l(0); l < pop.layers(); ++l)
+      s += (l ? "," : "") + std::to_string(pop.individuals(l));
+    return s;
+  };
+  random::verif::draw_sink = sink;
+  random::seed(seed);
+  for (unsigned k(0), n(static_cast<unsigned>(opt("calls", 10))); k < n; ++k)
+  {
+    const auto c(pickup(pop));
+    tr_ += "C " + std::to_string(c.layer) + " " + std::to_string(c.index) + "\n";
+  }
+  random::verif::draw_sink = nullptr;
+  layer_sizes = nullptr;
+}
+
 // what an unrelated part of a program would do between two runs: create symbols
 void unrelated_symbols()
 {
@@ -357,6 +476,8 @@ int main(int argc, char *argv[])
     rc = run_sr<std_es>(seed, class_data, evaluator_id::undefined);
   else if (kind == "class_alps")
     rc = run_sr<alps_es>(seed, class_data, evaluator_id::gaussian);
+  else if (kind == "pickup")
+    run_pickup(seed);
   else if (kind.rfind("inproc_mep_", 0) == 0)
   {
     by_name = true;
